@@ -362,6 +362,30 @@ def writeR {α} (c : Conn α) (msg : Msg α) (ctx : Option ReqId) (ctxNew : Bool
     if c.isDone then (eraseResp c msg, .broken)                -- "session is closed"
     else writeTo (eraseResp c msg) s msg ctx ctxNew
 
+/-! ### APPENDFAIL: a WRITE whose `EventStore.Append` fails
+
+`Write` only remembers the error (`errs = append(errs, err)`): nothing is appended, the event id is still computed from
+`lastIdx + 1` (it depends on `c.eventStore != nil`, not on the outcome of `Append`), `deliverLocked` runs as for any other
+write — a response is removed from `requests`, the stream completes with its last response, `lastIdx` advances — and the
+write fails (rejected) only if the message could not be delivered either.  Not a `Label` (the proofs about label lists
+are about a store that meets its contract); the extended step relation is `McpModel.Resume.AppendFail`. -/
+
+/-- second critical section of a write whose `Append` fails -/
+def writeToF {α} (c : Conn α) (s : Stream α) (msg : Msg α) (ctx : Option ReqId) (ctxNew : Bool) : Conn α × Res :=
+  ({ c with exs := (wDeliver c s msg ctx ctxNew).1,
+            streams := if wDone s msg then delStream s.id c.streams else setStream (wDeliver c s msg ctx ctxNew).2.1 c.streams },
+   if (wDeliver c s msg ctx ctxNew).2.2 then .ok else .rejected)
+
+/-- `Write` with a failing `Append` (when no `Append` is attempted — no store, a ≥ 2026-07-28 context — this is `writeR`) -/
+def writeFR {α} (c : Conn α) (msg : Msg α) (ctx : Option ReqId) (ctxNew : Bool) : Conn α × Res :=
+  if !wUse c ctxNew then writeR c msg ctx ctxNew else
+  if msg.isCall && (c.cfg.stateless || c.cfg.noSession) then (c, .rejected) else
+  match route c msg ctx with
+  | none => (eraseResp c msg, .rejected)
+  | some s =>
+    if c.isDone then (eraseResp c msg, .broken)
+    else writeToF (eraseResp c msg) s msg ctx ctxNew
+
 /-! ### WRITE in two steps: WROUTE (under `c.mu`) and WDELIVER (under the stream's `mu`)
 
 Between the two sections anything may happen: the stream may be detached, re-attached by a resume, closed, even
